@@ -15,12 +15,19 @@ TRUSTED = [
     "crc32fast is modelled as bit-serial reflected CRC-32 (poly 0xEDB88320, init/final 0xFFFFFFFF); compared through "
     "to_view_bytes / DataView::using only",
     "extraction: ExtrOcamlBasic only; OCaml 4.13.1; ocaml/frame/conv.ml + modelrun.ml (hex parsing/printing)",
+    "scratch space of the serializer: hand-written model coq/frame/Scratch.v of datacake-rpc/src/rkyv_tooling/scratch.rs "
+    "(LazyScratch) over rkyv 0.7.46's BufferScratch/AllocScratch as read from their source (buffers start at a 16-byte "
+    "boundary, alignments dividing 16, no allocation limit, the buffer-pointer-not-yet-computed panic included); tied to the "
+    "code by the executor hx-scratch driving the real LazyScratch through rkyv's ScratchSpace trait; that rkyv's "
+    "serializer obtains and releases blocks in nested order with unchanged layouts and never asks for an empty block is "
+    "read from rkyv's ScratchVec/AlignedSerializer source, not proved",
     "Rust executor harness/hx-rpc/src/bin/hx-frame.rs (generators, property oracle using crc32fast and size_of), run as a "
     "release build and as a debug-assertions/overflow-checks build",
 ]
 
 VIEW = "datacake-rpc/src/rkyv_tooling/view.rs"
 MOD = "datacake-rpc/src/rkyv_tooling/mod.rs"
+SCRATCH = "datacake-rpc/src/rkyv_tooling/scratch.rs"
 PINS = [
     (VIEW, r"if extended_buf\.len\(\) < (\d+) \{", "4", "minimum length (trailer size)"),
     (VIEW, r"extended_buf\[end - (\d+)\.\.\]", "4", "trailer position"),
@@ -31,8 +38,11 @@ PINS = [
      "size check before the cast (repair of D4)"),
     (MOD, r"let checksum = (crc32fast::hash)\(&buffer\)", "crc32fast::hash", "checksum function (to_view_bytes)"),
     (MOD, r"extend_from_slice\(&checksum\.(\w+)\(\)\)", "to_le_bytes", "trailer byte order (to_view_bytes)"),
+    (SCRATCH, r"const STACK_SCRATCH_SIZE: usize = ([^;]+);", "1024", "size of the first scratch buffer"),
+    (SCRATCH, r"const HEAP_SCRATCH_SIZE: usize = ([^;]+);", "16 << 10", "size of the second scratch buffer"),
 ]
 
+SCRATCH_DEBUG_EXE = os.path.join("..", "debug", "hx-scratch")
 DEBUG_EXE = os.path.join("..", "debug", "hx-frame")   # relative to target/release (vcheck has no profile switch there)
 
 
@@ -55,7 +65,7 @@ def nontrivial(case, result):
 
 
 def build_bin(profile):
-    cmd = ["cargo", "build", "--offline", "-p", "hx-rpc", "--bin", "hx-frame"]
+    cmd = ["cargo", "build", "--offline", "-p", "hx-rpc", "--bin", "hx-frame", "--bin", "hx-scratch"]
     if profile == "release":
         cmd.insert(3, "--release")
     lock = os.path.join(V.HARNESS, "Cargo.lock")
@@ -82,6 +92,7 @@ def run(ck):
     if bad:
         ck.broken_correspondence("frame-constants", "source lines the model transcribes changed: %s" % bad, [])
     kw = dict(model_project="frame", nontrivial=nontrivial)
+    skw = dict(model_project="frame", nontrivial=lambda case, result: True)
     if ok and okh and okd:
         if ck.replay:
             # run the replay's case lines under both builds
@@ -92,6 +103,8 @@ def run(ck):
                 for c in obj.get("cases", []):
                     f.write(c + "\n")
             saved, ck.replay = ck.replay, None
+            ck.correspondence("hx-scratch", "scratch", "hx-rpc", extra_args=["--replay", cases], name="scratch-replay", **skw)
+            ck.correspondence(SCRATCH_DEBUG_EXE, "scratch", "hx-rpc", extra_args=["--replay", cases], name="scratch-replay-debug", **skw)
             ck.correspondence("hx-frame", "frame", "hx-rpc", extra_args=["--replay", cases], name="frame-replay", **kw)
             ck.correspondence(DEBUG_EXE, "frame", "hx-rpc", extra_args=["--replay", cases], name="frame-replay-debug", **kw)
             ck.replay = saved
@@ -99,11 +112,15 @@ def run(ck):
             for f in V.corpus_files("C12"):
                 ck.correspondence("hx-frame", "frame", "hx-rpc", extra_args=["--replay", f], name="frame-corpus", **kw)
                 ck.correspondence(DEBUG_EXE, "frame", "hx-rpc", extra_args=["--replay", f], name="frame-corpus-debug", **kw)
+            for f in V.corpus_files("C12-scratch"):
+                ck.correspondence("hx-scratch", "scratch", "hx-rpc", extra_args=["--replay", f], name="scratch-corpus", **skw)
+            ck.correspondence("hx-scratch", "scratch", "hx-rpc", **skw)
+            ck.correspondence(SCRATCH_DEBUG_EXE, "scratch", "hx-rpc", extra_args=["lifo=800", "free=500"], name="scratch-debug", **skw)
             ck.correspondence("hx-frame", "frame", "hx-rpc", **kw)
             ck.correspondence(DEBUG_EXE, "frame", "hx-rpc", extra_args=["light=1"], name="frame-debug", **kw)
     ck.finish(
         level="proof",
-        rule="cases = for six message types (unit-like, fixed-size struct, String, nested Vec, byte blob, datacake's Status): "
+        rule="cases = for seven message types (unit-like, fixed-size struct, String, nested Vec, lists of lists of strings with the inner lists sized around the serializer's 1 KiB first-tier scratch so that outer and inner scratch blocks land in different tiers, byte blob, datacake's Status): "
              "to_view_bytes output vs the model's frame/CRC on bodies of 0..64 KiB (+1 MiB, checksum only); DataView::<T>::using on "
              "every single-bit flip, every truncation, every checksum-valid proper prefix, 1..8 byte extensions and other damage "
              "of real frames (every mutation of frames up to ~1 KiB quick / 3 KiB thorough is also run on the extracted model; for "
@@ -112,6 +129,11 @@ def run(ck):
              "again with the transport delivering request and reply bodies in pieces of 1, 3, 16 and 1000 bytes without a length "
              "hint (cases echo@n / rpc@n / status@n: body reassembly must return every byte); all "
              "under a release build, a reduced stream and the corpus also under a debug-assertions build. "
+             "Scratch space (component scratch): traces of requests and releases on the real LazyScratch vs the model's run_trace "
+             "- every nested chain of depth <= 3 (4 thorough) over 12 boundary layouts, random forests of nested sessions "
+             "(oracle: nothing refused, no panic, nothing left allocated) and free-order traces with other layouts on release "
+             "(model comparison only; traces releasing a block of the allocator twice are not cases); per step the tier and "
+             "offset of the block or ok/err/panic, then the positions of both buffers and the number of allocations in progress. "
              "non-trivial = distinct (case,result) pairs other than a `using` case refused only for being shorter than fixed+4",
         trusted_base=TRUSTED,
         assumptions=[
@@ -119,5 +141,8 @@ def run(ck):
             "a checksum-valid body of at least size_of::<Archived<T>>() bytes is cast unchecked by design: its content "
             "(relative pointers, alignment of the root) is outside C12 and outside this check",
             "bytes are values below 256 (wf_bytes)",
+            "scratch theorems: blocks are requested and released in nested order with the layout they were requested with, "
+            "sizes >= 1, alignments in {1,2,4,8,16} (wf_session); rkyv's use of the scratch space obeys this by construction "
+            "(ScratchVec), which is read from its source and exercised by the `deep` message type, not proved",
         ],
     )
